@@ -539,6 +539,11 @@ def convert_number(h: Any, which: str, args: List[AV], node: Any) -> AV:
             r = h.ctx.choose(("int-of-float", v.id), ["ok", "OverflowError", "ValueError"])
             if r != "ok":
                 raise h.raise_(r, "cannot convert float to integer", node)
+        if k == "int" and which == "float":
+            # JSON integers are unbounded in Python: float() of one beyond the double range raises OverflowError
+            r = h.ctx.choose(("float-of-int", v.id), ["ok", "OverflowError"])
+            if r != "ok":
+                raise h.raise_("OverflowError", "int too large to convert to float", node)
         return h.i.new_int(f"int({v.label})") if which == "int" else Term("float", (v,), h.ctx.new_id())
     raise h.unsupported(node, f"{which}({v!r})")
 
